@@ -28,9 +28,42 @@ def run_one(mod, prop, case, i, seed):
     try:
         out = mod.run_case(case)
         rec.update(out)
-    except Exception:  # an exception escaping the harness is a harness error, never a violation
-        rec["harness_error"] = traceback.format_exc()
+    except Exception as e:
+        # An exception whose innermost torchtree-or-harness frame lies in the subject means the real code
+        # failed on a valid input where the property demands a value: a violation keyed by exception type and
+        # raising function.  Anything else escaping is a harness error (-> inconclusive), never a violation.
+        from . import tt
+
+        if isinstance(e, tt.SubjectError):
+            rec.setdefault("violations", []).append(tt.viol(e.sig, str(e), case=case))
+            rec.setdefault("counters", {})
+            rec.setdefault("fingerprint", None)
+            return rec
+        where = _blame(e)
+        if where is not None:
+            sig = "%s:subject-exception:%s:%s" % (prop, type(e).__name__, where)
+            rec.setdefault("violations", []).append(
+                tt.viol(sig, "the subject raised %s: %s" % (type(e).__name__, str(e)[:300]), traceback=traceback.format_exc()[-3000:]))
+            rec.setdefault("counters", {})
+            rec.setdefault("fingerprint", None)
+        else:
+            rec["harness_error"] = traceback.format_exc()
     return rec
+
+
+def _blame(exc):
+    """Innermost frame that belongs to the subject (torchtree) or to the harness (vt): -> 'module.function' if it is
+    the subject, None if it is the harness."""
+    import os
+
+    frames = traceback.extract_tb(exc.__traceback__)
+    for fr in reversed(frames):
+        fn = fr.filename.replace(os.sep, "/")
+        if "/vt/" in fn and "/torchtree/" not in fn:
+            return None
+        if "/torchtree/" in fn:
+            return os.path.basename(fn)[:-3] + "." + fr.name
+    return None
 
 
 def main():
